@@ -530,6 +530,19 @@ Definition clean_cuts (ops : list wop) : bool := forallb clean_cut ops.
 (* no writer-side failure at all *)
 Definition uncut (ops : list wop) : bool :=
   forallb (fun o => match o with OB _ _ _ (Some _) => false | _ => true end) ops.
+(* a writer cannot accept more than it is offered: a cut lies inside the call's bytes *)
+Definition cut_within (o : wop) : bool :=
+  match o with OB _ len _ (Some j) => j <? len | _ => true end.
+Definition cuts_within (ops : list wop) : bool := forallb cut_within ops.
+(* the most one call can lose: all of a Write, less than a chunk of a copy *)
+Definition op_loss_bound (o : wop) : N :=
+  match o with
+  | OB BWrite len _ _ => len
+  | OB BCopy len _ _ => N.min len copy_chunk
+  | _ => 0
+  end.
+Fixpoint max_loss (ops : list wop) : N :=
+  match ops with [] => 0 | o :: r => N.max (op_loss_bound o) (max_loss r) end.
 (* the same script with every source ending regularly *)
 Definition clear_srcerr (o : wop) : wop :=
   match o with OB k len _ cut => OB k len false cut | _ => o end.
